@@ -693,6 +693,7 @@ func propC10(c *Ctx) string {
 	// every path; and the handshake is reached only if the stream decoder reads every legal PUBLISH
 	c19ErrClose(c)
 	c01Const(c, "C10/DETECT")
+	c10CloseWait(c, c.vocab(), "C10")
 	c.NotDecide("broker scripts with connection drops and session resumption in general", "the announce-on-publish mode's documented redelivery", "application-level deduplication")
 	c.Assume("Session contract: LookupPacket returns nil for unknown ids", "instance-insensitive field keys")
 	return c10Explanation
@@ -1735,4 +1736,76 @@ func c17Resub(c *Ctx, v *vocab) {
 		}
 	}
 	r.Check(fi.Name+":resubscribe≺dispatcher@flag=true", bad == nil && n > 0, fi.Decl.Pos(), len(in.Traces), why, c.witness(bad)...)
+}
+
+// c10CloseWait: the application-side shutdown waits for the client's goroutines. Close and Disconnect promise that
+// the processor is no longer running when they return: the application may then hand the same session to a new
+// client, and the inbound QoS 2 handling (lookup, callback, delete, PUBCOMP) of the old processor must not overlap
+// with it — otherwise the retransmitted PUBREL finds the message still stored and the callback runs twice. Decided:
+// every path of Close / Disconnect that gets past the "not connected" refusal reaches tomb.Wait (directly or through
+// an in-package function whose every call graph path contains it, guarded only by the started flag).
+func c10CloseWait(c *Ctx, v *vocab, prop string) {
+	r := c.Rule(prop+"/CLOSEWAIT", "TRACE+REACH", "Client.Close and Client.Disconnect: every path past the not-connected refusal calls tomb.Wait (through end): the processor has stopped before the caller can reuse the session", 2)
+	// in-package functions that contain a tomb.Wait call (transitively)
+	waits := map[*types.Func]bool{}
+	for changed := true; changed; {
+		changed = false
+		for _, fi := range c.P.LibFuncsAll("client") {
+			if fi.Decl.Body == nil || waits[fi.Obj] {
+				continue
+			}
+			ast.Inspect(fi.Decl.Body, func(m ast.Node) bool {
+				call, ok := m.(*ast.CallExpr)
+				if !ok {
+					return true
+				}
+				if f, _ := typeutilCallee(fi.Pkg.TypesInfo, call).(*types.Func); f != nil && (isTomb(f, "Wait") || waits[f]) {
+					if !waits[fi.Obj] {
+						waits[fi.Obj], changed = true, true
+					}
+				}
+				return true
+			})
+		}
+	}
+	notConn := c.P.Global("client", "ErrClientNotConnected")
+	for _, name := range []string{"client.(*Client).Close", "client.(*Client).Disconnect"} {
+		fi := c.mustFunc(r, name)
+		if fi == nil {
+			continue
+		}
+		in := c.traces(fi)
+		h := &Interp{P: c.P, Info: fi.Pkg.TypesInfo}
+		ok, n := true, 0
+		var wit *Trace
+		for _, t := range in.Traces {
+			if t.Exit != ExitReturn {
+				continue
+			}
+			// the refusal path returns ErrClientNotConnected
+			refused := false
+			for _, res := range t.Results {
+				if notConn != nil && h.objOf(res) == notConn {
+					refused = true
+				}
+			}
+			if refused {
+				continue
+			}
+			n++
+			waited := false
+			for _, e := range t.Ev {
+				if e.Kind != EvCall {
+					continue
+				}
+				if f, _ := e.Callee.(*types.Func); f != nil && (isTomb(f, "Wait") || waits[f]) {
+					waited = true
+				}
+			}
+			if !waited && ok {
+				ok, wit = false, t
+			}
+		}
+		r.Check(fi.Name+":waits for the goroutines", ok && n > 0, fi.Decl.Pos(), len(in.Traces), "a path returns to the application without waiting for the processor: the old processor can still be between the callback and the delete of a QoS 2 message when a new client resumes the session", c.witness(wit)...)
+	}
 }
